@@ -337,6 +337,204 @@ func c05Paren(p *Prog, r *Report) {
 	})
 	r.Check("R05b", "Binding.AddTo prints non-final operands with needs_paren=false", at.Pos(), unparen == 0,
 		fmt.Sprintf("%d non-final operands (`%%s;;`, `let: x := %%s in`) are printed with needs_paren=false: an operand that is itself a sequence or binding (a nested block statement, a for loop with its init binding) is not parenthesised, so its let-bindings extend over the rest of the enclosing block (shadowing leaks)", unparen))
+	if unparen > 0 {
+		c05BlockStatements(p, r, "R05b")
+	}
+}
+
+// c05BlockStatements: the instances of the non-final-operand finding. While Binding.AddTo prints
+// statement operands unparenthesised, every place where the translator uses a block (a sequence with
+// bindings of its own) as a *statement* of an enclosing sequence is a place where those bindings can
+// extend over the following statements. Each such construction site is an obligation keyed by the syntax
+// node it translates; a site whose bound names are synthetic (cannot clash with a Go identifier) is
+// discharged. New sites are therefore reported even though the printer's defect is a recorded finding.
+func c05BlockStatements(p *Prog, r *Report, rule string) {
+	newAnon := p.Func(coqPkg, "NewAnon")
+	n := 0
+	for _, f := range p.FuncsIn(Mod) {
+		rm := p.Rels(f)
+		p.instrs(f, func(b *ssa.BasicBlock, i int, in ssa.Instruction) {
+			mi, ok := in.(*ssa.MakeInterface)
+			if !ok || !strings.HasSuffix(types.TypeString(mi.X.Type(), nil), "coq.BlockExpr") {
+				return
+			}
+			// used as the Expr of a Binding: stored into the field, or passed to NewAnon
+			asStmt := false
+			for _, rf := range refs(mi) {
+				switch x := rf.(type) {
+				case *ssa.Store:
+					if o, fld, ok := fieldOf(x.Addr); ok && o.Obj().Name() == "Binding" && fld == "Expr" {
+						asStmt = true
+					}
+				case *ssa.Call:
+					if newAnon != nil && calleeOf(&x.Call) == newAnon {
+						asStmt = true
+					}
+				}
+			}
+			if !asStmt {
+				return
+			}
+			n++
+			// which syntax node is being translated here: the node parameter's type and the type tests that hold
+			node := ""
+			for _, pa := range f.Params {
+				if t := types.TypeString(pa.Type(), nil); strings.HasPrefix(t, "*go/ast.") || strings.HasPrefix(t, "go/ast.") {
+					node = strings.TrimPrefix(strings.TrimPrefix(t, "*"), "go/")
+					break
+				}
+			}
+			var tests []string
+			for k := range p.RelsAt(rm, in) {
+				if j := strings.Index(k, ".(*"); j >= 0 && strings.HasSuffix(k, ")#1 == true") {
+					tests = append(tests, strings.TrimSuffix(k[j+3:], ")#1 == true"))
+				}
+			}
+			sort.Strings(tests)
+			key := "a block is used as a statement when translating " + node
+			if len(tests) > 0 {
+				key += " (" + strings.Join(tests, ",") + ")"
+			}
+			// synthetic names: every name bound inside comes from fmt.Sprintf with a format starting with a digit verb
+			synthetic := false
+			p.instrs(f, func(b2 *ssa.BasicBlock, i2 int, in2 ssa.Instruction) {
+				if c, ok := in2.(*ssa.Call); ok && calleeName(c) == "fmt.Sprintf" {
+					if fs, ok := constString(c.Call.Args[0]); ok && strings.HasPrefix(fs, "%d") {
+						synthetic = true
+					}
+				}
+			})
+			if synthetic {
+				r.OK(rule, key, instrPos(in), "the names bound by the block are synthetic (they start with a digit and cannot clash with a Go identifier)")
+				return
+			}
+			// a continuation block: it contains the translation of the statements that follow (the handler's
+			// []ast.Stmt parameter), so it is the last binding of the enclosing sequence; it is scoped correctly
+			// iff everything placed before the continuation is anonymous (binds no name)
+			if cont, named := blockElements(p, f, mi.X); cont {
+				if len(named) == 0 {
+					r.OK(rule, key, instrPos(in), "continuation block (it holds the translation of the following statements, so it is the last binding) whose other elements bind no names")
+				} else {
+					r.Fail(rule, key+" [named prefix]", instrPos(in), fmt.Sprintf("the following statements are translated inside a block that first binds names from a narrower Go scope (%v): those names shadow outer ones for the rest of the enclosing block", named), "")
+				}
+				return
+			}
+			r.Fail(rule, key, instrPos(in), "the block's let-bindings are printed into the enclosing sequence (Binding.AddTo does not parenthesise non-final operands): names declared inside stay in scope for the statements that follow, and statements translated inside it run under names that Go scopes more narrowly", "")
+		})
+	}
+	if n == 0 {
+		r.Unknown(rule, "blocks used as statements", token.NoPos, "no construction site found")
+	}
+}
+
+// blockElements inspects the Bindings of a coq.BlockExpr value built in f: does it contain the
+// continuation (a translation that receives f's []ast.Stmt parameter), and which other elements may bind names.
+func blockElements(p *Prog, f *ssa.Function, blk ssa.Value) (cont bool, named []string) {
+	var rest *ssa.Parameter
+	for _, pa := range f.Params {
+		if types.TypeString(pa.Type(), nil) == "[]go/ast.Stmt" {
+			rest = pa
+		}
+	}
+	if rest == nil {
+		return false, nil
+	}
+	// the value stored into the Bindings field of the literal
+	var bindings ssa.Value
+	base := blk
+	if ld, ok := blk.(*ssa.UnOp); ok {
+		base = ld.X
+	}
+	for _, rf := range refs(base) {
+		if fa, ok := rf.(*ssa.FieldAddr); ok {
+			if _, fld, ok := fieldOf(fa); ok && fld == "Bindings" {
+				for _, r2 := range refs(fa) {
+					if st, ok := r2.(*ssa.Store); ok {
+						bindings = st.Val
+					}
+				}
+			}
+		}
+	}
+	if bindings == nil {
+		return false, nil
+	}
+	passesRest := func(c *ssa.Call) bool {
+		for _, a := range c.Call.Args {
+			if a == ssa.Value(rest) {
+				return true
+			}
+		}
+		return false
+	}
+	// operands of the slice, looking through append(...)
+	var elems []ssa.Value
+	seenV := map[ssa.Value]bool{}
+	var collect func(v ssa.Value)
+	collect = func(v ssa.Value) {
+		for _, o := range flowOperands(v) {
+			if seenV[o] {
+				continue
+			}
+			seenV[o] = true
+			elems = append(elems, o)
+			if c, ok := o.(*ssa.Call); ok {
+				if bi, ok := c.Call.Value.(*ssa.Builtin); ok && bi.Name() == "append" {
+					for _, a := range c.Call.Args {
+						collect(a)
+					}
+				}
+			}
+		}
+	}
+	collect(bindings)
+	for _, v := range elems {
+		c, ok := v.(*ssa.Call)
+		if !ok {
+			// tail.Bindings where tail is the translation of the remainder
+			if ld, ok := v.(*ssa.UnOp); ok {
+				if fa, ok := ld.X.(*ssa.FieldAddr); ok {
+					if _, fld, ok := fieldOf(fa); ok && fld == "Bindings" {
+						for _, o := range flowOperands(fa.X) {
+							if c2, ok := o.(*ssa.Call); ok && passesRest(c2) {
+								cont = true
+							}
+						}
+						if al, ok := fa.X.(*ssa.Alloc); ok { // the struct result was spilled to a local
+							for _, r3 := range refs(al) {
+								if st, ok := r3.(*ssa.Store); ok && st.Addr == ssa.Value(al) {
+									if c2, ok := st.Val.(*ssa.Call); ok && passesRest(c2) {
+										cont = true
+									}
+								}
+							}
+						}
+					}
+				}
+			}
+			if fv, ok := v.(*ssa.Field); ok {
+				if c2, ok := fv.X.(*ssa.Call); ok && passesRest(c2) {
+					cont = true
+				}
+			}
+			continue
+		}
+		if bi, ok := c.Call.Value.(*ssa.Builtin); ok && bi.Name() == "append" {
+			continue
+		}
+		if !strings.HasSuffix(types.TypeString(c.Type(), nil), "coq.Binding") && !strings.HasSuffix(types.TypeString(c.Type(), nil), "coq.BlockExpr") {
+			continue
+		}
+		switch {
+		case passesRest(c):
+			cont = true
+		case calleeName(c) == coqPkg+".NewAnon":
+		default:
+			named = append(named, sk(c))
+		}
+	}
+	sort.Strings(named)
+	return cont, named
 }
 
 func trunc(s string) string {
